@@ -182,7 +182,7 @@ def analyse(chk, results, label=""):
 
 def run(chk, scen_file=None, repeat=1):
     quick = chk.tier == "quick"
-    n, nf = (70, 2) if quick else (1500, 12)
+    n, nf = (400, 2) if quick else (12000, 20)
     ok_cases, out_cases = vlib.coq_make(["At/WorkerCases.vo"])
     if not ok_cases:
         raise vlib.Broken("At/WorkerCases.v does not compile:\n" + out_cases[-1500:])
